@@ -89,14 +89,16 @@ func genShutdownCase(rng *rand.Rand, idx int) ShutdownCase {
 }
 
 func phaseShutdown(r *mon.Run) {
+	g := &guard{r: r, phase: "shutdown"}
 	n := r.Pick(60, 420)
 	for i := 0; i < n; i++ {
 		c := genShutdownCase(r.RNG(0xC000+uint64(i)), i)
 		if i == 0 || i == 3 {
 			r.Sample(c)
 		}
-		runShutdownCase(r, c)
+		g.run(func() { runShutdownCase(r, c) })
 	}
+	g.done()
 }
 
 // lateInboundStuck is the structural matcher of the "late inbound peer"
